@@ -11,6 +11,7 @@ RULE = ("G_all witness graphs (blocking/skip/BUFFER/advance/PHASE, stochastic + 
         "field by field (eps, seq, ts_start, rng, state, window seq/ts_sent/ts_recv/payload, output) in the compiled record AND in the "
         "witness host trace; one evaluation = one (experiment, mode, prune, episode); non-trivial = >=2 non-supervisor nodes, >=1 "
         "window>1, >=30 compared steps; distinct by spec digest x mode x prune x episode")
+RULE += ' Built later: some graphs are compiled with extra_padding / larger user buffer sizes (replay must not depend on an admissible buffer configuration).'
 MIN_NONTRIVIAL = {"quick": 12, "thorough": 150}
 DECIDING = ["steps_compared", "trace_steps_compared"]
 ASSUMPTIONS = ["negative window sequence numbers are one class; +-0.0 canonicalised; timestamps compared after float32 cast (both sides come "
